@@ -89,11 +89,11 @@ CFG = {
     # unconditional goto, used after a later label (seventh round of seeded changes)
     "mc_cfg": {"quick": ["MC_VarScope_quick.cfg", "MC_VarScope_quick_cfgs.cfg", "MC_VarScope_fns_quick.cfg",
                          "MC_VarScope_fnscfgs_quick.cfg", "MC_VarScope_ctx_quick.cfg", "MC_VarScope_ret_quick.cfg",
-                         "MC_VarScope_phased_quick.cfg", "MC_VarScope_else_quick.cfg", "MC_VarScope_dead_quick.cfg"],
+                         "MC_VarScope_phased_quick.cfg", "MC_VarScope_else_quick.cfg", "MC_VarScope_dead_quick.cfg", "MC_VarScope_empty_quick.cfg"],
                "thorough": ["MC_VarScope_thorough.cfg", "MC_VarScope_thorough_cfgs.cfg", "MC_VarScope_thorough_2labels.cfg",
                             "MC_VarScope_fns_thorough.cfg", "MC_VarScope_fnscfgs_thorough.cfg", "MC_VarScope_ctx_thorough.cfg",
                             "MC_VarScope_ret_thorough.cfg", "MC_VarScope_phased_thorough.cfg", "MC_VarScope_else_thorough.cfg",
-                            "MC_VarScope_dead_thorough.cfg"]},
+                            "MC_VarScope_dead_thorough.cfg", "MC_VarScope_empty_thorough.cfg"]},
     "prepare": prepare,
     "workers": 8,
     "compare": compare,
